@@ -359,12 +359,16 @@ def spaces(tier):
                         yield X.ternary(c, a, bb)
 
         def d2L():
-            D = list(X.depth1(Lp, with_ternary=False))
+            # the qualified reference RS::r_ms stays at depth <= 1: `RS::r_ms < x` is taken for
+            # a template-id and rejected (unjudged here, C06's business), and thousands of
+            # rejected headers would only cost bisection time
+            L2 = [l for l in Lp if "::" not in l.text]
+            D = list(X.depth1(L2, with_ternary=False))
             for e in X.wrap1(D):
                 yield e
             for e in X.extend_binary(D, C):
                 yield e
-            for e in X.extend_binary(d1c(), Lp):
+            for e in X.extend_binary(d1c(), L2):
                 yield e
 
         def d2pairs():
@@ -391,6 +395,13 @@ def spaces(tier):
 # -------------------------------------------------------------------------------- main
 def main():
     ck = Check(PID, level="model_checking")
+    try:
+        return explore(ck)
+    finally:
+        ck.cleanup()      # scratch is removed on harness errors too (unless --keep)
+
+
+def explore(ck):
     b = build.build("rel")
     if ck.replay:
         return replay(ck, b)
